@@ -404,7 +404,7 @@ class Spreadsheet:
         ind = np.where(ac['tagname'] == tagname.lower())[0][0]
 
         if ac['format'][ind] in 'text title':
-            dt = 'U20'
+            dt = object  # text of any length (a fixed-width string type would cut long names)
         elif '.' in ac['format'][ind]:
             dt = np.float64
         else:
